@@ -264,8 +264,12 @@ func runRPC(o *Opts) *Summary {
 		for _, k := range gen {
 			nd := vn.NewNode(w.parts[k-1], gen, gen, NodeOpts{Store: o.Store, Cache: o.Cache, Dir: o.Dir, SyncLimit: 40, SuspendLimit: limit})
 			nd.node.Init()
+			// every second trace: the application's state-change handler fails from now
+			// on (unreachable socket client, failing callback); the node's own state
+			// changes must not depend on it
+			nd.app.failState = t%2 == 1
 		}
-		vn.EmitInit(map[string]interface{}{"sched": "rpc", "seed": o.Seed*1000 + int64(t), "nc": n + 2, "suspend_limit": limit})
+		vn.EmitInit(map[string]interface{}{"sched": "rpc", "seed": o.Seed*1000 + int64(t), "nc": n + 2, "suspend_limit": limit, "app_state_handler_fails": t%2 == 1})
 		// the driver plays the heartbeat: checkSuspend after every exchange
 		autoSuspended := map[int]bool{}
 		hb := func(nd *NNode) {
@@ -281,7 +285,15 @@ func runRPC(o *Opts) *Summary {
 			}()
 			before := nd.State()
 			undet := len(nd.core.Hg().UndeterminedEvents)
-			nd.node.VCheckSuspend()
+			func() {
+				// (a second Suspend() of a node that did not change state closes a closed channel)
+				defer func() {
+					if r := recover(); r != nil {
+						autoSuspended[nd.num] = true
+					}
+				}()
+				nd.node.VCheckSuspend()
+			}()
 			lcr := nd.node.GetLastConsensusRoundIndex()
 			w.Emit(nd.num, "Heartbeat", map[string]interface{}{"undet": undet, "initial": nd.node.VInitialUndeterminedEvents(),
 				"limit": limit, "nvals": nd.core.Validators().Len(), "removedRound": nd.core.RemovedRound(),
